@@ -37,6 +37,7 @@ COLD_BASE = 10000000
 
 import threading
 STOP_CHUNKS = threading.Event()
+REPO_DIR = os.environ.get("REPO", "/repo").rstrip("/") + "/"   # where the library sources of this build live (a frame there is a library frame)
 
 EXIT_CLASSES = {70: "TERMINATE", 71: "ABORT", 72: "HANG", 77: "SANITIZER", 78: "RACE_TSAN"}
 
@@ -95,7 +96,7 @@ def classify_fatal(returncode, stderr_text):
     if "ThreadSanitizer" in text:
         kind = re.search(r"WARNING: ThreadSanitizer: ([^\(\n]*)", text)
         frames = re.findall(r"#\d+ (\S.*?) (/\S+?):\d+", text)
-        lib = [strip_templates(f[0]) for f in frames if "BitSerializer" in f[0] or f[1].startswith("/repo/")]
+        lib = [strip_templates(f[0]) for f in frames if "BitSerializer" in f[0] or f[1].startswith(REPO_DIR)]
         site = "tsan:" + (kind.group(1).strip() if kind else "?") + ":" + (lib[0] if lib else "NO-LIBRARY-FRAME")
         return "RACE_TSAN", site, (kind.group(0) if kind else "")[:300]
     s = re.search(r"SUMMARY: (AddressSanitizer|UndefinedBehaviorSanitizer): (\S+)", text)
@@ -103,16 +104,16 @@ def classify_fatal(returncode, stderr_text):
         kind = s.group(2)
         rt = re.search(r"(\S+?):\d+:\d+: runtime error: (.*)", text)
         frames = re.findall(r"#\d+ 0x[0-9a-f]+ in (.*?) (/\S+?):\d+", text)
-        lib = [strip_templates(f[0]) for f in frames if f[1].startswith("/repo/")]
+        lib = [strip_templates(f[0]) for f in frames if f[1].startswith(REPO_DIR)]
         detail = ""
         if rt:
             msg = re.sub(r"0x[0-9a-f]+|\d+", "N", rt.group(2))
             kind = "ubsan:" + " ".join(msg.split()[:6])
             detail = rt.group(0)[:300]
-            if not lib and rt.group(1).startswith("/repo/"):
+            if not lib and rt.group(1).startswith(REPO_DIR):
                 lib = [os.path.basename(rt.group(1))]
             elif not lib and not frames:
-                lib = [os.path.basename(rt.group(1))] if "/repo/" in rt.group(1) else []
+                lib = [os.path.basename(rt.group(1))] if REPO_DIR in rt.group(1) else []
         else:
             detail = s.group(0)
         site = kind + ":" + (lib[0] if lib else "NO-LIBRARY-FRAME")
@@ -474,6 +475,8 @@ def run_pinned(flavour, prop, known):
         if e["property"] != prop or e.get("flavour", "asan") != flavour:
             continue
         path = os.path.join(VERIF, e["replay"])
+        if not os.path.exists(path):
+            continue
         with open(path) as f:
             rp = json.load(f)
         res = exec_plan(flavour, prop, rp["lanes"])
